@@ -36,7 +36,11 @@ func contract(c tcase, o obs) []finding {
 	n := c.n()
 
 	if o.Stuck != "" && o.Ret < 0 {
-		bad("never-returns", "the call did not return although every member returned", "returns", o.Stuck)
+		cls := "never-returns"
+		if n == 0 {
+			cls = "n=0/never-returns"
+		}
+		bad(cls, "the call did not return although every member returned (every goroutine of the call is parked: it never will)", "returns", o.Stuck)
 	}
 	if o.Panic != "" {
 		cls := "panic"
@@ -45,7 +49,7 @@ func contract(c tcase, o obs) []finding {
 		}
 		bad(cls, "the call panicked", "no panic", "panic: "+o.Panic)
 	}
-	if len(o.Left) > 0 {
+	if len(o.Left) > 0 && !(o.Stuck != "" && o.Ret < 0) { // (a call that never returns is its own finding: its goroutines are parked because of it)
 		bad("goroutine-leak", fmt.Sprintf("%d goroutine(s) started by the call are still alive (parked forever) after every member returned", len(o.Left)),
 			"0 goroutines with pkg/group frames", strings.Join(o.Left, " || "))
 	}
